@@ -52,6 +52,10 @@ def run_planted(entry, seed, workers, worlds):
                    VERIF_SKIP_SELFTEST='1', VERIF_REPLAY_DIR=os.path.join(scratch, 'replays'),
                    VERIF_EVIDENCE_DIR=os.path.join(scratch, 'evidence'), VERIF_WORKERS=str(workers),
                    VERIF_MAX_REPORTS='2')
+        if os.environ.get('VERIF_SELFTEST_FAST'):
+            # stop at the first violation and report it unminimised (it is
+            # still replayed once before it counts)
+            env.update(VERIF_STOP_AT_FIRST='1', VERIF_NO_MINIMISE='1')
         t0 = time.time()
         p = subprocess.run([sys.executable, os.path.join(VERIF, 'run_check.py'), 'C14', '--tier', 'quick'],
                            capture_output=True, text=True, env=env, timeout=1800)
